@@ -9,5 +9,6 @@ CONSTANTS
  Prefill = 0
  MaxBlk = 7
  LinkFirst = TRUE
+ ClearRetries = TRUE
 INVARIANTS TypeOK NoDup NoFab Conservation SnapshotCovers EmptyTruthful BoundOK
 CHECK_DEADLOCK FALSE
